@@ -143,6 +143,24 @@ def contract_edits(rng, c: Dict[str, Any]) -> List[Tuple[str, Dict[str, Any], Op
     e = dup(c)
     e["out"] = e["out"] + ["zo"]
     out.append(("outputs-extra", e, False))
+    amention = {v for t in c["a"] for v in t["c"]}
+    if c["in"] and c["in"][-1] not in amention:
+        e = dup(c)
+        v = e["in"].pop()
+        e["out"] = [v] + e["out"]
+        out.append(("last-input-becomes-first-output", e, False))
+    movable = [v for v in c["in"] if v not in amention]
+    if movable:
+        e = dup(c)
+        v = rng.choice(movable)
+        e["in"].remove(v)
+        e["out"].insert(rng.randint(0, len(e["out"])), v)
+        out.append(("input-becomes-output", e, False))
+    if c["out"]:
+        e = dup(c)
+        v = e["out"].pop(0)
+        e["in"] = e["in"] + [v]
+        out.append(("first-output-becomes-last-input", e, False))
     unused = [o for o in c["out"] if all(o not in t["c"] for t in c["g"])]
     if unused:
         e = dup(c)
@@ -270,6 +288,10 @@ def gen_case(rng) -> Dict[str, Any]:
     ins = ["i1", "i2"][: rng.randint(1, 2)]
     outs = ["o1", "o2", "o3"][: rng.randint(1, 3)]
     c = gen.rcontract(rng, ins, outs, style)
+    if rng.random() < 0.4:
+        # an input the assumptions do not mention (it can change role without touching the constraints)
+        keep_out = ins[-1]
+        c["a"] = [t for t in c["a"] if keep_out not in t["c"]]
     if rng.random() < 0.5:
         # make zero constants likely (signed-zero edits)
         for t in c["a"] + c["g"]:
